@@ -114,6 +114,101 @@ func httpObjResult(d *dg.Design) []mref {
 	})
 }
 
+// methods with an inline object payload carrying credential attributes
+func securedInline(d *dg.Design) []mref {
+	return methods(d, func(_ *dg.Service, m *dg.Method) bool {
+		if m.Payload == nil || m.Payload.T.Kind != "object" || m.NoSecurity {
+			return false
+		}
+		for _, f := range m.Payload.T.Attrs {
+			if f.A.Sec != nil {
+				return true
+			}
+		}
+		return false
+	})
+}
+
+// ensureSecured gives one method (inline object payload, HTTP) a requirement on a
+// fresh scheme of a random kind, with the credential attributes it needs.
+func ensureSecured(d *dg.Design, r *vh.RNG) (mref, bool) {
+	x, ok := pickM(r, methods(d, func(_ *dg.Service, m *dg.Method) bool {
+		return m.HTTP != nil && m.Payload != nil && m.Payload.T.Kind == "object" && len(m.Payload.T.Attrs) > 0
+	}))
+	if !ok {
+		return x, false
+	}
+	for _, s := range d.Schemes {
+		if s.Name == "es_sch" {
+			return x, false
+		}
+	}
+	kind := vh.Pick(r, []string{"basic", "jwt", "oauth2", "apikey"})
+	sc := dg.Scheme{Kind: kind, Name: "es_sch"}
+	if kind == "jwt" || kind == "oauth2" {
+		sc.Scopes = []string{"api:read"}
+	}
+	d.Schemes = append(d.Schemes, sc)
+	var keep []*dg.Field
+	for _, f := range x.m.Payload.T.Attrs {
+		if f.A.Sec == nil {
+			keep = append(keep, f)
+		}
+	}
+	add := func(name, fn string) {
+		sec := &dg.SecAttrKind{Fn: fn}
+		if fn == "APIKey" {
+			sec.Scheme = "es_sch"
+		}
+		keep = append(keep, &dg.Field{Name: name, A: dg.Attr{T: dg.Prim("String"), Sec: sec}})
+	}
+	switch kind {
+	case "basic":
+		add("es_user", "Username")
+		add("es_pass", "Password")
+	case "jwt":
+		add("es_token", "Token")
+	case "oauth2":
+		add("es_access", "AccessToken")
+	case "apikey":
+		add("es_key", "APIKey")
+	}
+	x.m.Payload.T.Attrs = keep
+	x.m.Security = []dg.Requirement{{Schemes: []string{"es_sch"}}}
+	x.m.NoSecurity = false
+	return x, true
+}
+
+// twoAPIKeys prepares a method (inline object payload, HTTP) for the API key
+// mutations: two API key schemes ak_a / ak_b registered, the method's own credential
+// attributes removed.
+func twoAPIKeys(d *dg.Design, r *vh.RNG) (mref, bool) {
+	x, ok := pickM(r, methods(d, func(_ *dg.Service, m *dg.Method) bool {
+		return m.HTTP != nil && m.Payload != nil && m.Payload.T.Kind == "object" && len(m.Payload.T.Attrs) > 0
+	}))
+	if !ok {
+		return x, false
+	}
+	for _, s := range d.Schemes {
+		if s.Name == "ak_a" {
+			return x, false
+		}
+	}
+	d.Schemes = append(d.Schemes, dg.Scheme{Kind: "apikey", Name: "ak_a"}, dg.Scheme{Kind: "apikey", Name: "ak_b"})
+	var keep []*dg.Field
+	for _, f := range x.m.Payload.T.Attrs {
+		if f.A.Sec == nil {
+			keep = append(keep, f)
+		}
+	}
+	if len(keep) == 0 {
+		keep = append(keep, dg.F("plain", dg.Prim("String")))
+	}
+	x.m.Payload.T.Attrs = keep
+	x.m.NoSecurity = false
+	return x, true
+}
+
 func firstResponse(h *dg.HTTPMap) *dg.Response {
 	if len(h.Responses) == 0 {
 		h.Responses = append(h.Responses, dg.Response{Status: 200})
@@ -293,7 +388,9 @@ var mutators = map[string]mutator{
 	"unknown_scope": func(d *dg.Design, r *vh.RNG) *Mutation {
 		x, ok := pickM(r, methods(d, func(_ *dg.Service, m *dg.Method) bool { return len(m.Security) > 0 && !m.NoSecurity }))
 		if !ok {
-			return nil
+			if x, ok = ensureSecured(d, r); !ok {
+				return nil
+			}
 		}
 		x.m.Security[0].Scopes = append(x.m.Security[0].Scopes, "ghost:scope")
 		return &Mutation{Kind: "unknown_scope", Where: where(x), Name: "ghost:scope", Covered: true, Expect: "reject"}
@@ -301,7 +398,15 @@ var mutators = map[string]mutator{
 	"undefined_view": func(d *dg.Design, r *vh.RNG) *Mutation {
 		x, ok := pickM(r, methods(d, func(_ *dg.Service, m *dg.Method) bool { return isResultTypeAttr(d, m.Result) }))
 		if !ok {
-			return nil
+			// give one method a viewed result
+			x, ok = pickM(r, methods(d, func(_ *dg.Service, m *dg.Method) bool { return m.HTTP != nil }))
+			if !ok || utOf(d, "Outer") != nil || utOf(d, "Inner") != nil {
+				return nil
+			}
+			d.Types = append(d.Types, viewTypes()...)
+			res := dg.A(dg.Ref("Outer"))
+			x.m.Result = &res
+			x.m.HTTP.Responses = nil
 		}
 		// a fixed view together with response headers / cookies would run into the recorded panic
 		if x.m.HTTP != nil {
@@ -322,7 +427,11 @@ var mutators = map[string]mutator{
 			}
 		}
 		if len(rts) == 0 {
-			return nil
+			if utOf(d, "Outer") != nil || utOf(d, "Inner") != nil {
+				return nil
+			}
+			rts = viewTypes()
+			d.Types = append(d.Types, rts...)
 		}
 		t := rts[r.Intn(len(rts))]
 		i := r.Intn(len(t.Views))
@@ -354,6 +463,184 @@ var mutators = map[string]mutator{
 		sortStrings(cands)
 		t := cands[r.Intn(len(cands))]
 		return &Mutation{Kind: "required_missing", Where: t, Name: ghost, HookType: t, Covered: true, Expect: "reject"}
+	},
+	// ---- security: every scheme of an effective requirement needs its credential attribute(s) ----
+	"cred_missing": func(d *dg.Design, r *vh.RNG) *Mutation {
+		x, ok := pickM(r, securedInline(d))
+		if !ok {
+			if x, ok = ensureSecured(d, r); !ok {
+				return nil
+			}
+		}
+		var idx []int
+		for i, f := range x.m.Payload.T.Attrs {
+			if f.A.Sec != nil {
+				idx = append(idx, i)
+			}
+		}
+		i := idx[r.Intn(len(idx))]
+		gone := x.m.Payload.T.Attrs[i]
+		x.m.Payload.T.Attrs = append(append([]*dg.Field{}, x.m.Payload.T.Attrs[:i]...), x.m.Payload.T.Attrs[i+1:]...)
+		return &Mutation{Kind: "cred_missing", Where: where(x), Name: gone.A.Sec.Fn, Covered: true, Expect: "reject"}
+	},
+	"cred_wrong_function": func(d *dg.Design, r *vh.RNG) *Mutation {
+		x, ok := pickM(r, securedInline(d))
+		if !ok {
+			if x, ok = ensureSecured(d, r); !ok {
+				return nil
+			}
+		}
+		swap := map[string]string{"Token": "AccessToken", "AccessToken": "Token", "Username": "Password", "Password": "Username"}
+		for _, f := range x.m.Payload.T.Attrs {
+			if f.A.Sec != nil && swap[f.A.Sec.Fn] != "" {
+				was := f.A.Sec.Fn
+				f.A.Sec = &dg.SecAttrKind{Fn: swap[was]}
+				return &Mutation{Kind: "cred_wrong_function", Where: where(x), Name: was + "->" + swap[was], Covered: true, Expect: "reject"}
+			}
+		}
+		return nil
+	},
+	"cred_stray": func(d *dg.Design, r *vh.RNG) *Mutation {
+		x, ok := pickM(r, methods(d, func(s *dg.Service, m *dg.Method) bool {
+			if m.Payload == nil || m.Payload.T.Kind != "object" || len(m.Payload.T.Attrs) == 0 {
+				return false
+			}
+			for _, f := range m.Payload.T.Attrs {
+				if f.A.Sec != nil {
+					return false
+				}
+			}
+			return m.NoSecurity || (len(m.Security) == 0 && len(s.Security) == 0 && len(d.Security) == 0)
+		}))
+		if !ok {
+			return nil
+		}
+		fn := vh.Pick(r, []string{"Token", "AccessToken", "Username", "Password", "APIKey"})
+		sec := &dg.SecAttrKind{Fn: fn}
+		if fn == "APIKey" {
+			sec.Scheme = "whatever_sch"
+		}
+		x.m.Payload.T.Attrs = append(x.m.Payload.T.Attrs, &dg.Field{Name: "stray_cred", A: dg.Attr{T: dg.Prim("String"), Sec: sec}})
+		return &Mutation{Kind: "cred_stray", Where: where(x), Name: fn, Covered: true, Expect: "reject"}
+	},
+	// two API key schemes: the method requires ak_a, the payload only carries the key of ak_b
+	"apikey_other_scheme": func(d *dg.Design, r *vh.RNG) *Mutation {
+		x, ok := twoAPIKeys(d, r)
+		if !ok {
+			return nil
+		}
+		x.m.Security = []dg.Requirement{{Schemes: []string{"ak_a"}}}
+		x.m.Payload.T.Attrs = append(x.m.Payload.T.Attrs, &dg.Field{Name: "key_b", A: dg.Attr{T: dg.Prim("String"), Sec: &dg.SecAttrKind{Fn: "APIKey", Scheme: "ak_b"}}})
+		x.m.HTTP.Headers = append(x.m.HTTP.Headers, dg.MapEntry{Attr: "key_b", Wire: "X-Key-B"})
+		return &Mutation{Kind: "apikey_other_scheme", Where: where(x), Name: "ak_a", Covered: true, Expect: "reject"}
+	},
+	// ... and the valid counterparts: one or both keys, each for its own scheme
+	"apikey_two_schemes_valid": func(d *dg.Design, r *vh.RNG) *Mutation {
+		x, ok := twoAPIKeys(d, r)
+		if !ok {
+			return nil
+		}
+		names := []string{"ak_a", "ak_b"}
+		if r.Bool() {
+			names = []string{vh.Pick(r, names)}
+		}
+		if r.Bool() && len(names) == 2 {
+			x.m.Security = []dg.Requirement{{Schemes: []string{"ak_a"}}, {Schemes: []string{"ak_b"}}}
+		} else {
+			x.m.Security = []dg.Requirement{{Schemes: names}}
+		}
+		for _, n := range names {
+			f := "key_" + n[3:]
+			x.m.Payload.T.Attrs = append(x.m.Payload.T.Attrs, &dg.Field{Name: f, A: dg.Attr{T: dg.Prim("String"), Sec: &dg.SecAttrKind{Fn: "APIKey", Scheme: n}}})
+			x.m.HTTP.Headers = append(x.m.HTTP.Headers, dg.MapEntry{Attr: f, Wire: "X-Key-" + n[3:]})
+		}
+		return &Mutation{Kind: "apikey_two_schemes_valid", Where: where(x), Covered: true, Expect: "accept"}
+	},
+	// ---- valid designs: Reference / Extend combined with recursive attributes of the same
+	// names on both sides (AttributeExpr.Inherit / Merge / Find / hash / Dup / examples) ----
+	"ref_recursive": func(d *dg.Design, r *vh.RNG) *Mutation {
+		x, ok := pickM(r, methods(d, func(_ *dg.Service, m *dg.Method) bool {
+			return m.Payload != nil && m.Payload.T.Kind == "object" && len(m.Payload.T.Attrs) > 0
+		}))
+		if !ok || utOf(d, "RR1") != nil {
+			return nil
+		}
+		wrap := func(name string) dg.Type {
+			switch r.Intn(3) {
+			case 0:
+				return dg.ArrayOf(dg.A(dg.Ref(name)))
+			case 1:
+				return dg.MapOf(dg.A(dg.Prim("String")), dg.A(dg.Ref(name)))
+			}
+			return dg.Ref(name)
+		}
+		mutual := r.Bool()
+		extend := r.Chance(1, 3)
+		link := func(t *dg.UserType, to string) {
+			if extend {
+				t.Extend = to
+			} else {
+				t.Reference = to
+				t.RefAttrs = []string{"val"}
+			}
+		}
+		desc := "Reference"
+		if extend {
+			desc = "Extend"
+		}
+		var types []*dg.UserType
+		if !mutual {
+			rr := &dg.UserType{Name: "RR1", Base: dg.Obj(dg.F("next", wrap("RR1")), dg.Req("val", dg.Prim("String")), dg.F("deep", dg.Obj(dg.F("next", dg.Ref("RR1")))))}
+			tt := &dg.UserType{Name: "TT1", Base: dg.Obj(dg.F("next", wrap("TT1")), dg.F("deep", dg.Obj(dg.F("next", dg.Ref("TT1")))))}
+			link(tt, "RR1")
+			types = []*dg.UserType{rr, tt}
+			desc += " self"
+		} else {
+			r1 := &dg.UserType{Name: "RR1", Base: dg.Obj(dg.F("next", wrap("RR2")), dg.F("val", dg.Prim("String")))}
+			r2 := &dg.UserType{Name: "RR2", Base: dg.Obj(dg.F("next", wrap("RR1")), dg.F("val", dg.Prim("String")))}
+			t1 := &dg.UserType{Name: "TT1", Base: dg.Obj(dg.F("next", wrap("TT2")))}
+			t2 := &dg.UserType{Name: "TT2", Base: dg.Obj(dg.F("next", wrap("TT1")))}
+			link(t1, "RR1")
+			link(t2, "RR2")
+			types = []*dg.UserType{r1, r2, t1, t2}
+			desc += " mutual"
+		}
+		if r.Chance(1, 3) {
+			// the referencing type is a result type, returned by the method
+			tt := types[len(types)-1]
+			if mutual {
+				tt = types[2]
+			}
+			_ = tt
+			rt := &dg.UserType{Name: "TTRes", Result: true, Base: dg.Obj(dg.F("next", dg.Ref("TTRes")), dg.F("tt", dg.Ref("TT1")))}
+			link(rt, "RR1")
+			vs := []dg.ViewField{{Name: "next"}, {Name: "tt"}}
+			if !extend {
+				vs = append(vs, dg.ViewField{Name: "val"})
+			}
+			rt.Views = []dg.View{{Name: "default", Attrs: vs}}
+			types = append(types, rt)
+			if x.m.Result == nil || x.m.Result.T.Kind == "object" {
+				res := dg.A(dg.Ref("TTRes"))
+				x.m.Result, x.m.ResultView = &res, ""
+				if x.m.HTTP != nil {
+					x.m.HTTP.Responses = nil
+				}
+			}
+			desc += " result-type"
+		}
+		d.Types = append(d.Types, types...)
+		f := dg.F("rr", dg.Ref("TT1"))
+		if r.Chance(1, 3) {
+			f.A.Default, f.A.HasDef = map[string]any{"val": "x", "next": map[string]any{"val": "y"}}, true
+			desc += " default"
+		}
+		x.m.Payload.T.Attrs = append(x.m.Payload.T.Attrs, f)
+		if r.Chance(1, 4) {
+			x.m.GRPC = &dg.GRPCMap{}
+			desc += " grpc"
+		}
+		return &Mutation{Kind: "ref_recursive", Where: where(x), Name: desc, Expect: "any"}
 	},
 	// ---- mutations the model does not predict: any outcome but a crash ----
 	"type_twice": func(d *dg.Design, r *vh.RNG) *Mutation {
@@ -553,7 +840,11 @@ func nearValid(r *vh.RNG, idx int) (*dg.Design, *Mutation) {
 	}
 	names := mutatorNames()
 	for try := 0; try < 6; try++ {
-		k := names[r.Intn(len(names))]
+		// every kind takes its turn (so that each is met in every quick run), then random
+		k := names[idx%len(names)]
+		if try > 0 {
+			k = names[r.Intn(len(names))]
+		}
 		if rare[k] && !r.Chance(1, 6) {
 			continue
 		}
